@@ -541,15 +541,16 @@ fn frag_check<Ctx: Cx>(
                     let chk = TxChecker::new(&spend, script.clone(), lh);
                     let ex = Exec::new(&script, sigver, true, &chk);
                     let sentinel = vec![0x53u8, 0x53];
-                    let run = |items: &Vec<Vec<u8>>| -> Result<Vec<Vec<u8>>, &'static str> {
+                    let run_ops = |items: &Vec<Vec<u8>>| -> Result<(Vec<Vec<u8>>, u32), &'static str> {
                         let mut init = items.clone();
                         if base == Base::W {
                             init.push(sentinel.clone());
                         }
                         let mut st = St::new(init);
                         ex.run(&mut st)?;
-                        Ok(st.stack)
+                        Ok((st.stack, st.trace.op_count))
                     };
+                    let run = |items: &Vec<Vec<u8>>| -> Result<Vec<Vec<u8>>, &'static str> { run_ops(items).map(|x| x.0) };
                     // result extraction by base type
                     let result_of = |fin: &Vec<Vec<u8>>| -> Result<Option<Vec<u8>>, String> {
                         match base {
@@ -617,11 +618,20 @@ fn frag_check<Ctx: Cx>(
                                         // dissatisfiable (e.g. and_v): the element count of a node-level
                                         // DISsatisfaction is therefore only compared in non-malleable mode; the
                                         // byte figures (what fees depend on) are compared in both.
-                                        if count > sd.max_witness_stack_count && !(mall && which == "dissat") {
+                                        if count > sd.max_witness_stack_count {
                                             b.push(format!("elements {} > max_witness_stack_count {}", count, sd.max_witness_stack_count));
                                         }
                                         if sigver == SigVer::Base && sssize > sd.max_script_sig_size {
                                             b.push(format!("scriptSig bytes {} > max_script_sig_size {}", sssize, sd.max_script_sig_size));
+                                        }
+                                        // executed non-push opcodes of this node on this input (the 201 limit is
+                                        // enforced from static_ops + max_exec_op_count; irrelevant in tapscript)
+                                        if sigver != SigVer::Tapscript {
+                                            if let Ok((_, ops)) = run_ops(items) {
+                                                if ops as usize > ms.ext.static_ops + sd.max_exec_op_count {
+                                                    b.push(format!("executed opcodes {} > static_ops {} + max_exec_op_count {}", ops, ms.ext.static_ops, sd.max_exec_op_count));
+                                                }
+                                            }
                                         }
                                         if b.is_empty() { None } else { Some(b.join("; ")) }
                                     }
